@@ -29,8 +29,9 @@ import (
 func TestMain(m *testing.M) {
 	vkit.Quiet()
 	vkit.MainWith(m, "C20", func() {
+		shutdownFwd()
 		shutdownLive()
-		etcdfix.Close()
+		closeSharedEtcd()
 	})
 }
 func TestProp(t *testing.T)   { vkit.RunAll(t) }
